@@ -214,14 +214,19 @@ func (k Keeper) ExecuteLimitOpenOrder(ctx sdk.Context, order types.PerpetualOrde
 		}
 	}
 
+	// The refund and the open are applied on a cache context and written back only when the
+	// open succeeded: the caller (ExecuteOrders) logs errors and goes on, so a failure after the
+	// refund must not leave a half-opened position and an emptied escrow behind.
+	cacheCtx, write := ctx.CacheContext()
+
 	// send the collateral amount back to the owner
 	ownerAddress := sdk.MustAccAddressFromBech32(order.OwnerAddress)
-	err = k.bank.SendCoins(ctx, order.GetOrderAddress(), ownerAddress, sdk.NewCoins(order.Collateral))
+	err = k.bank.SendCoins(cacheCtx, order.GetOrderAddress(), ownerAddress, sdk.NewCoins(order.Collateral))
 	if err != nil {
 		return err
 	}
 
-	res, err := k.perpetual.Open(ctx, &perpetualtypes.MsgOpen{
+	res, err := k.perpetual.Open(cacheCtx, &perpetualtypes.MsgOpen{
 		Creator:         order.OwnerAddress,
 		Position:        perpetualtypes.Position(order.Position),
 		Leverage:        order.Leverage,
@@ -236,7 +241,8 @@ func (k Keeper) ExecuteLimitOpenOrder(ctx sdk.Context, order types.PerpetualOrde
 	}
 
 	// Remove the order from the pending order list
-	k.RemovePendingPerpetualOrder(ctx, order.OrderId)
+	k.RemovePendingPerpetualOrder(cacheCtx, order.OrderId)
+	write()
 
 	ctx.EventManager().EmitEvent(types.NewExecuteLimitOpenPerpetualOrderEvt(order, res.Id))
 
